@@ -225,7 +225,10 @@ def rule_tcpframe(P):
         if len(outs) != 1 or outs[0].kind != "ret":
             return ("unknown", str([(o.kind, o.why) for o in outs][:2]))
         o = outs[0]
-        rv = evalx(normx(o.at.e[1]), o.env, P)
+        try:
+            rv = evalx(normx(o.at.e[1]), o.env, P)
+        except EvalError as ex:
+            return ("unknown", "return value: %s" % ex)
         m = o.env.get("#pkt") if isinstance(o.env.get("#msg"), PPtr) else None
         if m is not None and o.env.get("#msglen") != len(m):
             m = ("badlen", o.env.get("#msglen"), len(m))
